@@ -1064,6 +1064,9 @@ def np_append(interp, st, args, kwargs, node):
         for ra, rb in zip(a.rows(), b.rows()):
             rows.append(list(ra.flat) + list(rb.flat))
         return Arr.from_nested(rows)
+    if axis == 0 and (isinstance(args[0], Grid) or isinstance(args[1], Grid)):
+        # np.append(a, b, axis=0) of arrays of one trailing shape is np.concatenate((a, b), axis=0)
+        return np_concatenate(interp, st, [(args[0], args[1])], {"axis": 0}, node)
     raise Outside("np.append outside modelled case", node)
 
 
@@ -2453,3 +2456,25 @@ def m_recdict_pop(interp, st, base, base_node, args, kwargs, node):
 
 
 METHODS[("RecDictView", "pop")] = m_recdict_pop
+
+
+def np_flip(interp, st, args, kwargs, node):
+    """np.flip(a, axis=k): entries reversed along one axis (trusted library contract)"""
+    M = _M()
+    a = M.arr_to_grid(args[0]) if isinstance(args[0], Arr) else args[0]
+    axis = kwargs.get("axis", args[1] if len(args) > 1 else None)
+    if not isinstance(a, Grid) or not isinstance(axis, int):
+        raise Outside("np.flip without a constant axis", node)
+    if axis < 0:
+        axis += a.rank
+    n = a.dims[axis]
+
+    def fn(idx):
+        idx2 = list(idx)
+        idx2[axis] = to_z3(as_int(n)) - 1 - idx[axis]
+        return a.select(idx2)
+
+    return M.grid_lambda(a.dims, a.kind, fn, a.dtype)
+
+
+LIBFUNCS.update({"np.flip": np_flip})
